@@ -22,7 +22,7 @@ CHECK = {
                  "quick": {"cases": 500, "shards": 8, "soft_s": 50},
                  "thorough": {"cases": 6000, "shards": 16, "soft_s": 400}}],
     "floors": {"attempt_failed": 0.2, "attempt_with_cancel": 0.2, "prior_partial_parts": 0.1},
-    "rule": "rapid-generated (model, prior store state, fault script, attempts with cancel times and gaps) run through the real PullModel against a scripted in-process registry; "
+    "rule": "Added in the last session: resume files with a part file torn by a kill, an installed manifest torn by a kill, OLLAMA_NOPRUNE drawn. rapid-generated (model, prior store state, fault script, attempts with cancel times and gaps) run through the real PullModel against a scripted in-process registry; "
             "non-trivial = at least one scripted fault was actually consumed by a request or pre-seeded resume state was used; distinct = distinct hash of the generated case.",
     "assumptions": ["HTTP-level faults only", "manifest bytes trusted as delivered", "completed write(2) calls persist (no power loss)",
                     "virtual clock by testing/synctest (go1.26.8)"],
